@@ -42,8 +42,13 @@ impl Rec {
     }
     /// send one op; returns the implementation's answer
     pub fn op(&mut self, line: &str) -> String {
-        let a = self.eng.line(line);
+        // the line goes to the operations file before it runs: if the real code takes the whole process down
+        // (a wild copy, an abort), the last line of the file is the operation that did it
         writeln!(self.ops, "{}", line).unwrap();
+        if line.starts_with("log") || line.starts_with("aw") || line.starts_with("palloc") || line.starts_with("intern") {
+            self.ops.flush().unwrap();
+        }
+        let a = self.eng.line(line);
         writeln!(self.imp, "{}", a).unwrap();
         self.lines += 1;
         let first = line.split_whitespace().next().unwrap_or("");
@@ -128,6 +133,37 @@ pub fn generate(prop: &str, tier: &str, seed: u64, rec: &mut Rec) {
         .ok()
         .and_then(|s| s.parse().ok())
         .unwrap_or(if thorough { 20 } else { 1 });
+    match prop {
+        "C01" => {
+            gen_c01(rec, &mut rng, 500 * scale, false);
+            gen_c01_exhaustive(rec, thorough);
+            if thorough {
+                gen_descend_and_return(rec, "c01d", 7, &[(0, 0), (1, 0), (2, 0), (0, 1), (2, 1)]);
+            } else {
+                gen_descend_and_return(rec, "c01d", 6, &[(0, 0), (1, 0), (2, 0), (2, 1)]);
+            }
+        }
+        "C08" => {
+            gen_c01(rec, &mut rng, 1500 * scale, true);
+            gen_c08_exhaustive(rec, if thorough { 4 } else { 3 });
+            gen_descend_and_return(rec, "c08d", if thorough { 7 } else { 6 }, &[(0, 0), (1, 0), (2, 1)]);
+        }
+        "C11" => gen_c11(rec, &mut rng, scale),
+        "C02" => gen_writes(rec, &mut rng, 700 * scale, false),
+        "C03" => {
+            gen_writes(rec, &mut rng, 900 * scale, true);
+            gen_writes_exhaustive(rec, if thorough { 5 } else { 4 });
+        }
+        "C04" => gen_alloc(rec, &mut rng, 40 * scale),
+        "C05" => gen_logs(rec, &mut rng, 300 * scale, thorough),
+        "C06" => gen_boxes(rec, &mut rng, scale),
+        "C09" => gen_typed(rec, &mut rng, 1200 * scale),
+        "C10" => gen_deint(rec, &mut rng, 2000 * scale),
+        "C12" => gen_intern(rec, &mut rng, 250 * scale),
+        "C13" => gen_invocations(rec, &mut rng, 150 * scale),
+        "C14" => gen_threads(rec, &mut rng, 200 * scale, thorough),
+        _ => panic!("unknown property {}", prop),
+    }
     // dense native sweeps over sizes (oracle leg, see sweeps.rs); not under miri (VERIF_SCALE set there)
     if std::env::var("VERIF_NO_SWEEPS").is_err() && !cfg!(miri) {
         let sweeps: Vec<crate::sweeps::Sweep> = match prop {
@@ -146,31 +182,6 @@ pub fn generate(prop: &str, tier: &str, seed: u64, rec: &mut Rec) {
                 rec.oracle_failures.push(format!("size sweep {}: {}", s.name, f));
             }
         }
-    }
-    match prop {
-        "C01" => {
-            gen_c01(rec, &mut rng, 500 * scale, false);
-            gen_c01_exhaustive(rec, thorough);
-        }
-        "C08" => {
-            gen_c01(rec, &mut rng, 1500 * scale, true);
-            gen_c08_exhaustive(rec, if thorough { 4 } else { 3 });
-        }
-        "C11" => gen_c11(rec, &mut rng, scale),
-        "C02" => gen_writes(rec, &mut rng, 700 * scale, false),
-        "C03" => {
-            gen_writes(rec, &mut rng, 900 * scale, true);
-            gen_writes_exhaustive(rec, if thorough { 5 } else { 4 });
-        }
-        "C04" => gen_alloc(rec, &mut rng, 40 * scale),
-        "C05" => gen_logs(rec, &mut rng, 300 * scale, thorough),
-        "C06" => gen_boxes(rec, &mut rng, scale),
-        "C09" => gen_typed(rec, &mut rng, 1200 * scale),
-        "C10" => gen_deint(rec, &mut rng, 2000 * scale),
-        "C12" => gen_intern(rec, &mut rng, 250 * scale),
-        "C13" => gen_invocations(rec, &mut rng, 150 * scale),
-        "C14" => gen_threads(rec, &mut rng, 200 * scale, thorough),
-        _ => panic!("unknown property {}", prop),
     }
 }
 
@@ -551,6 +562,168 @@ fn gen_c01(rec: &mut Rec, rng: &mut Rng, cases: u64, malformed: bool) {
 /// small-scope exhaustive: every document of a small grammar (depth <= 2, at most two children,
 /// keys "a"/"b" and the duplicate-key variant) x every sequence of two reads on the root out of
 /// {element / key / value by index 0, 1, 2; property a, b, c}, followed by reads below each child
+/// ordered trees with at most `n` nodes (a node is a leaf or a container of sub-trees)
+#[derive(Clone, Debug)]
+struct Shape(Vec<Shape>);
+
+fn shapes_exact(n: usize) -> Vec<Shape> {
+    // all ordered trees with exactly n nodes
+    if n == 0 {
+        return vec![];
+    }
+    if n == 1 {
+        return vec![Shape(vec![])];
+    }
+    // root + a forest of n-1 nodes
+    fn forests(n: usize) -> Vec<Vec<Shape>> {
+        if n == 0 {
+            return vec![vec![]];
+        }
+        let mut out = Vec::new();
+        for first in 1..=n {
+            for t in shapes_exact(first) {
+                for rest in forests(n - first) {
+                    let mut f = vec![t.clone()];
+                    f.extend(rest);
+                    out.push(f);
+                }
+            }
+        }
+        out
+    }
+    forests(n - 1).into_iter().map(Shape).collect()
+}
+
+/// encode a shape: containers are arrays (kind 0), maps with keys a, b, c… (kind 1) or alternate by depth
+/// (kind 2); leaves are distinct small integers, or (leaf_kind 1) empty containers
+fn encode_shape(t: &Shape, kind: u8, leaf_kind: u8, depth: usize, next: &mut u8, out: &mut Vec<u8>, is_root: bool) {
+    let as_map = match kind {
+        0 => false,
+        1 => true,
+        _ => depth % 2 == 1,
+    };
+    if t.0.is_empty() && !is_root {
+        if leaf_kind == 1 {
+            out.push(if *next % 2 == 0 { 0x90 } else { 0x80 });
+        } else {
+            out.push(*next);
+        }
+        *next += 1;
+        return;
+    }
+    out.push(if as_map { 0x80 } else { 0x90 } + t.0.len() as u8);
+    for (i, c) in t.0.iter().enumerate() {
+        if as_map {
+            out.push(0xa1);
+            out.push(b'a' + i as u8);
+        }
+        encode_shape(c, kind, leaf_kind, depth + 1, next, out, false);
+    }
+}
+
+fn container_paths(t: &Shape, prefix: &mut Vec<usize>, out: &mut Vec<Vec<usize>>) {
+    for (i, c) in t.0.iter().enumerate() {
+        prefix.push(i);
+        if !c.0.is_empty() {
+            out.push(prefix.clone());
+            container_paths(c, prefix, out);
+        }
+        prefix.pop();
+    }
+}
+
+/// **descend and come back**: for every small document shape, every path down to a nested container (each
+/// step read through the handle of the step before) and every ancestor on that path, read every index of
+/// the ancestor (before, at, after the branch that was descended, and one past the end), then walk the whole
+/// document again through fresh and through the old handles. What a partial descent leaves behind in the
+/// nodes it went through must never show.
+fn gen_descend_and_return(rec: &mut Rec, label: &str, max_nodes: usize, kinds: &[(u8, u8)]) {
+    let handle = |a: &str| -> Option<String> {
+        let t: Vec<&str> = a.split_whitespace().collect();
+        if t.len() == 3 && (t[0] == "arr" || t[0] == "obj") {
+            Some(t[1].to_string())
+        } else {
+            None
+        }
+    };
+    for n in 3..=max_nodes {
+        for shape in shapes_exact(n) {
+            let mut paths = Vec::new();
+            container_paths(&shape, &mut Vec::new(), &mut paths);
+            if paths.is_empty() {
+                continue;
+            }
+            for &(kind, leaf_kind) in kinds {
+                let mut doc = Vec::new();
+                let mut next = 1u8;
+                encode_shape(&shape, kind, leaf_kind, 0, &mut next, &mut doc, true);
+                for path in &paths {
+                    // ancestors: level 0 = root … level k-1 = parent of the end of the path
+                    let mut node = &shape;
+                    let mut lens = Vec::new();
+                    for &i in path {
+                        lens.push(node.0.len());
+                        node = &node.0[i];
+                    }
+                    for a in 0..path.len() {
+                        for j in 0..=lens[a] {
+                            rec.case(label);
+                            rec.bump("exhaustive:descend-return");
+                            rec.op(&format!("init {}", hex0(&doc)));
+                            let mut hs: Vec<String> = Vec::new();
+                            match handle(&rec.op("root")) {
+                                Some(h) => hs.push(h),
+                                None => continue,
+                            }
+                            let mut ok = true;
+                            for &i in path {
+                                let cur = hs.last().unwrap().clone();
+                                match handle(&rec.op(&format!("idx {} {}", cur, i))) {
+                                    Some(h) => hs.push(h),
+                                    None => {
+                                        ok = false;
+                                        break;
+                                    }
+                                }
+                            }
+                            if !ok {
+                                continue;
+                            }
+                            // come back to ancestor `a` and read index j there (by index, as key, by name)
+                            let anc = hs[a].clone();
+                            let got = rec.op(&format!("idx {} {}", anc, j));
+                            rec.op(&format!("key {} {}", anc, j));
+                            rec.op(&format!("prop {} {}", anc, hex0(&[b'a' + j as u8])));
+                            if let Some(h) = handle(&got) {
+                                rec.op(&format!("idx {} 0", h));
+                                rec.op(&format!("len {}", h));
+                            }
+                            // the old handles still answer, in both directions
+                            for h in hs.iter().rev() {
+                                rec.op(&format!("len {}", h));
+                                rec.op(&format!("idx {} 1", h));
+                                rec.op(&format!("idx {} 0", h));
+                            }
+                            // and a fresh walk from the root sees the document
+                            let top = hs[0].clone();
+                            for i in 0..shape.0.len() {
+                                if let Some(h) = handle(&rec.op(&format!("idx {} {}", top, i))) {
+                                    for k in 0..3 {
+                                        if let Some(h2) = handle(&rec.op(&format!("idx {} {}", h, k))) {
+                                            rec.op(&format!("idx {} 0", h2));
+                                            rec.op(&format!("idx {} 1", h2));
+                                        }
+                                    }
+                                }
+                            }
+                        }
+                    }
+                }
+            }
+        }
+    }
+}
+
 fn gen_c01_exhaustive(rec: &mut Rec, thorough: bool) {
     let leaves: Vec<Vec<u8>> = vec![vec![0x01], vec![0xa1, 0x61], vec![0xc0]];
     let arr_of = |kids: &[&Vec<u8>]| -> Vec<u8> {
@@ -992,6 +1165,34 @@ fn f64_bits(rng: &mut Rng) -> u64 {
 }
 
 fn gen_writes(rec: &mut Rec, rng: &mut Rng, cases: u64, keep_going: bool) {
+    // declared lengths that do not fit 32 bits (64-bit callers can pass them): the container is closed
+    // only by as many entries as were declared, never by the length taken modulo 2^32
+    if cfg!(target_pointer_width = "64") {
+        for &(m, k) in &[(1u64, 0u64), (1, 1), (1, 2), (2, 1), (1, 15), (1, 16), (3, 0)] {
+            for obj in [false, true] {
+                for nested in [false, true] {
+                    rec.case(if keep_going { "c03" } else { "c02" });
+                    rec.bump("wide-declared-length");
+                    rec.op("init c0");
+                    if nested {
+                        rec.op("w arr 2");
+                    }
+                    let l = m * (1u64 << 32) + k;
+                    rec.op(&format!("w {} {}", if obj { "obj" } else { "arr" }, l));
+                    for i in 0..k {
+                        if obj {
+                            rec.op(&format!("w str {}", hex0(format!("k{}", i).as_bytes())));
+                        }
+                        rec.op(&format!("w i32 {}", i));
+                    }
+                    rec.op(if obj { "w endobj" } else { "w endarr" });
+                    rec.op("out?");
+                    rec.op("w null");
+                    rec.op("fin");
+                }
+            }
+        }
+    }
     for ci in 0..cases {
         rec.case(if keep_going { "c03" } else { "c02" });
         rec.op("init c0");
